@@ -114,6 +114,12 @@ CORPUS_DOCS += [
                                                                    "minimum": 0, "maximum": 0, "exclusiveMinimum": 0, "exclusiveMaximum": 0, "pattern": "", "format": "",
                                                                    "required": [], "enum": [], "dependencies": {}, "patternProperties": {}, "properties": {}, "items": []}}},
     {"classes": {}, "order": [], "root": {"k": "AnyOf", "elements": [_E, {"k": "Nothing"}], "default": False}},
+    # floats whose shortest repr needs 16-17 significant digits, huge and tiny ones, in keyword and in literal positions; unsorted required lists
+    {"classes": {}, "order": [], "root": {"k": "Number", "kw": {"multipleOf": 1 / 3, "minimum": 0.1 + 0.2, "maximum": 9007199254740993.0, "default": 0.1 + 0.2,
+                                                                "exclusiveMaximum": 1.7976931348623157e308, "exclusiveMinimum": 5e-324}}},
+    {"classes": {}, "order": [], "root": {"k": "Array", "items": {"k": "Element", "kw": {"enum": [1 / 3, 2 / 3], "const": 0.30000000000000004}}, "kw": {"default": [1e-7 / 3]}}},
+    {"classes": {}, "order": [], "root": {"k": "Element", "kw": {"required": ["b", "a", "B", "name", "id"], "properties": {"p": {"e": {"k": "Element", "kw": {"required": ["z", "y"]}}, "required": True, "source": None}},
+                                                                   "dependencies": {"k": ["d", "c"], "l": {"k": "Element", "kw": {"required": ["n", "m"]}}}}}},
 ]
 
 
